@@ -2,6 +2,7 @@ package c17
 
 import (
 	"bytes"
+	"encoding/json"
 	"fmt"
 	"math"
 	"strings"
@@ -111,6 +112,29 @@ func stressCall(fn string, in [4]geom.Coord, salt int) string {
 			}
 		}
 		return s
+	case "geojson-empty":
+		// every caller encodes a geometry without coordinates, writes over what Encode
+		// returned to it (its own value), and marshals another one
+		kinds := []geom.T{geom.NewPointEmpty(geom.XY), geom.NewLineString(geom.XYZ), geom.NewPolygon(geom.XY), geom.NewMultiPoint(geom.XY), geom.NewMultiLineString(geom.XY), geom.NewMultiPolygon(geom.XYZ), geom.NewGeometryCollection()}
+		k := int(math.Abs(p0[0]*4)) % len(kinds)
+		gg, err := geojson.Encode(kinds[k])
+		if err != nil {
+			return "err:" + err.Error()
+		}
+		first, _ := json.Marshal(gg)
+		if gg.Coordinates != nil {
+			for i := range *gg.Coordinates {
+				(*gg.Coordinates)[i] = byte('0' + salt%10)
+			}
+			*gg.Coordinates = append(*gg.Coordinates, byte('0'+salt%10))
+		}
+		if gg.Geometries != nil {
+			for i := range *gg.Geometries {
+				(*gg.Geometries)[i] = byte('0' + salt%10)
+			}
+		}
+		second, err := geojson.Marshal(kinds[(k+1+int(math.Abs(q[1])))%len(kinds)])
+		return fmt.Sprint(string(first), " ", string(second), " ", err)
 	case "wkt-case":
 		// keywords in a letter case of their own per input (the parser is case-insensitive):
 		// a steady supply of spellings no earlier call has seen
@@ -251,7 +275,7 @@ func stress(t *testing.T) {
 	}
 	n := 0
 	for round := 0; round < rounds; round++ {
-		for _, fn := range []string{"orientation", "ring", "intersect", "crossing", "hull", "decode-deep", "wkt-case"} {
+		for _, fn := range []string{"orientation", "ring", "intersect", "crossing", "hull", "decode-deep", "wkt-case", "geojson-empty"} {
 			n++
 			if n%shards != shard {
 				continue
